@@ -28,6 +28,10 @@ SEEDS = [
     "start: c 'e'\nb: 'k' a | 'm'?\na: (b)+ 'w' | 'v'?\nc: a 'z'\n",
     # an alternative made only of lookaheads and optional items, followed by another alternative
     "start: term 'e'\nterm: sign 'n'\nsign: !'+' '-'? | '+' '+'\n",
+    # rules named invalid...: for FIRST they are rules like any other (the semantics has an error mode in which they match)
+    "start: stmt 'z'\nstmt: invalid_pair | NAME\ninvalid_pair: 'a' 'b'\n",
+    "start: x 'q'\nx: invalidthing? 'c' | 'b'\ninvalidthing: 'a'\n",
+    "start: stmt 'z'\nstmt: a=invalid_pair { a } | NUMBER\ninvalid_pair: 'a' 'b' { 'x' }\n",
 ]
 
 PRELUDE = g2c.HEADER + """From Pegen Require Import Analysis.Visitor Analysis.Nullable Analysis.FirstSets Analysis.FirstPure Proofs.VisitorSim Proofs.NullableProofs.
@@ -75,6 +79,9 @@ def grammar_texts(tier):
                        terminals=("'a'", "'b'", "'c'", "NAME", "NUMBER", "'a'?", "'b'*"), forced=True, cut=False,
                        p_ref=0.5, lookahead_terminals_only=True)
     for t in gramgen.gen_grammars(r, kn, 60 if tier == "quick" else 1500):
+        yield t
+    import dataclasses
+    for t in gramgen.gen_grammars(r, dataclasses.replace(kn, invalid=True), 15 if tier == "quick" else 300):
         yield t
 
 
@@ -130,6 +137,9 @@ def run(chk: common.Check, tier: str):
         descs.append(desc)
         jobs.append({"grammar": text, "inputs": A.inputs_upto(A.alphabet(text), 3, 150), "rules": list(g.rules)})
         meta.append((text, fs))
+        if "invalid" in text:      # the error mode of the semantics: alternatives that mention invalid... rules are tried too
+            jobs.append(dict(jobs[-1], call_invalid=True))
+            meta.append((text, fs))
     failing = common.run_cases(chk, "kfirst", PRELUDE, "grammar * list (string * list string)", cases, OK, shard=200)
     if failing is not None:
         chk.oblige(f"correspondence K-first: Analysis/FirstSets.v agrees with FirstSetCalculator.calculate() on "
